@@ -152,7 +152,7 @@ def t_pairs(acc, n1, t1, n2, t2, shard, nshard, stride, offset, eps_list, name_p
 
 
 # ---------------------------------------------------------------- (b) histories
-def run_history(acc, pool_specs, eps, depth, gens):
+def run_history(acc, pool_specs, eps, depth, gens, part=0, nparts=1):
     """BFS over call sequences of the three constructions on a pool of operands with pairwise disjoint states."""
     def make_pool():
         return [build_named(s, names, eps) for (s, names) in pool_specs]
@@ -190,7 +190,7 @@ def run_history(acc, pool_specs, eps, depth, gens):
             return False
         return judge(acc, op, inst, rp, [before[i] for i in idxs], None, r)
 
-    states, transitions, completed = hist.bfs(make_pool, enabled, apply, canon, depth, on_step)
+    states, transitions, completed = hist.bfs(make_pool, enabled, apply, canon, depth, on_step, part=part, nparts=nparts)
     acc.states += states
     acc.transitions += transitions
     acc.c['history_states'] += states
